@@ -440,6 +440,11 @@ func expText(r *R) (string, bool) {
 			return in(r, 0), true
 		}
 		return fmtOf(r), true
+	case "handledindomain":
+		if nin(r, 0) == 0 {
+			return kid(0), true
+		}
+		return in(r, 1), true
 	case "newfe", "newfw":
 		args := make([]interface{}, len(r.K))
 		for i := range r.K {
